@@ -67,7 +67,7 @@ PROPERTIES: dict[str, dict] = {
         "assumptions": COMMON_ASSUMPTIONS + ["CTfile V3000 atom keyword list (spec.py)"],
     },
     "C07": {
-        "rules": ["R-KWEXACT", "R-ZERO", "R-ORDERING", "R-SPLICE", "R-TOKENS", "R-SIBKEYS", "R-PROV", "R-ALIAS", "R-WRAP", "R-INDEXSPACE", "R-GRAPHBUILD", "R-DISPATCH", "R-SYMZ", "R-BONDTYPE", "R-IDXTRUTH", "R-COUNTSLINE"],
+        "rules": ["R-KWEXACT", "R-ZERO", "R-ORDERING", "R-SPLICE", "R-TOKENS", "R-SIBKEYS", "R-PROV", "R-ALIAS", "R-WRAP", "R-INDEXSPACE", "R-GRAPHBUILD", "R-DISPATCH", "R-SYMZ", "R-BONDTYPE", "R-IDXTRUTH", "R-COUNTSLINE", "R-NONECHECK"],
         "technique": "partial evaluation of token predicates over the spec's keyword set + heap-based taint analysis of the reader + CFG ordering rules",
         "explanation": "Keyword recognizers accept exactly their keyword; zero-valued explicit defaults never reach atom records; splicing precedes "
                        "tokenising and bond endpoints are validated before return; D/T pass through the shared helper; per-bond dictionaries are not shared.",
